@@ -75,6 +75,16 @@ VX void verif_vsh(int which, int component, int l, int m, int l_hat, int m_hat, 
 	out[0]				   = c.real();
 	out[1]				   = c.imag();
 }
+// assembled vector harmonics: which = 0 (Y) / 1 (Psi); out = {re0, im0, re1, im1, re2, im2}
+VX void verif_vsh_vec(int which, int l, int m, double theta, double phi, double* out)
+{
+	std::vector<std::complex<double>> v = which == 0 ? Vector_Spherical_Harmonics_Y(l, m, theta, phi) : Vector_Spherical_Harmonics_Psi(l, m, theta, phi);
+	for(int i = 0; i < 3; i++)
+	{
+		out[2 * i]	   = v[i].real();
+		out[2 * i + 1] = v[i].imag();
+	}
+}
 VX unsigned long verif_factorial_table(double* out, unsigned long cap)
 {
 	unsigned long n = FactorialList.size();
